@@ -294,6 +294,9 @@ func FaultScenarios(seed int64) map[string]func() protomc.Scenario {
 		// more old members taking part than the old threshold requires (t+2 of them)
 		"ecdsa-resharing-3old": func() protomc.Scenario { return EcResharing(3, 1, []int{0, 1, 2}, 2, 1, seed, false) },
 		"eddsa-resharing-3old": func() protomc.Scenario { return EdResharing(3, 1, []int{0, 1, 2}, 2, 1, seed) },
+		// fewer old members taking part than the old key has holders (partyCount 3, two participants)
+		"ecdsa-resharing-gap": func() protomc.Scenario { return EcResharing(3, 1, []int{0, 2}, 2, 1, seed, true) },
+		"eddsa-resharing-gap": func() protomc.Scenario { return EdResharing(3, 1, []int{0, 2}, 2, 1, seed) },
 		// the same configurations with Parameters.SetConcurrency(1) (legal: ">= 1"): one verification slot
 		"ecdsa-keygen-conc1": func() protomc.Scenario {
 			sc := EcKeygen("small", 2, 1, seed)
